@@ -365,10 +365,17 @@ def file_entries(n):
 
 
 def write_terminal_file(entries, with_pos):
-    path = os.path.join(scratch(), 'terms-%d-%d.txt' % (os.getpid(), next(_counter)))
-    with open(path, 'w', encoding='utf-8') as f:
-        for k, (sid, idx) in enumerate(entries):
-            f.write('%d %d new%d%s\n' % (sid, idx, k, ' NP%d' % k if with_pos else ''))
+    k0 = next(_counter)
+    path = os.path.join(scratch(), 'terms-%d-%d.txt' % (os.getpid(), k0))
+    text = ''.join('%d %d new%d%s\n' % (sid, idx, k, ' NP%d' % k if with_pos else '') for k, (sid, idx) in enumerate(entries))
+    # file-level features, rotating: as written / no newline after the last line / CRLF line ends
+    # (blank lines are not part of the format: the unchanged tool rejects them)
+    if k0 % 3 == 1:
+        text = text.rstrip('\n')
+    elif k0 % 3 == 2:
+        text = text.replace('\n', '\r\n')
+    with open(path, 'w', encoding='utf-8', newline='') as f:
+        f.write(text)
     return path
 
 
